@@ -7,6 +7,16 @@ package resolver
 // that they collapse onto one upstream lookup (singleflight). Observed: the
 // message each caller got back (ID, content with the ID zeroed), and whether
 // the returned messages are pairwise distinct objects.
+//
+// The message groupLookup returns is the caller's to keep: upstack it is edited
+// in place (tags, rcode, sections, the client's OPT). So most callers EDIT what
+// they got the moment groupLookup returns — a marker record appended to the
+// additional section and the first answer's TTL overwritten in place, both
+// carrying the caller's own tag — while the other callers may still be on their
+// way out of the flight. Afterwards every message must show its own caller's
+// marks and nobody else's. Half of the cases run under GOMAXPROCS(1), where the
+// flight's leader resumes (and edits) before any follower has taken its copy;
+// the other half under the default scheduler.
 
 import (
 	"context"
@@ -15,6 +25,7 @@ import (
 	"math/rand"
 	"net"
 	"os"
+	"runtime"
 	"strconv"
 	"strings"
 	"sync"
@@ -112,6 +123,20 @@ func TestVerifC10Share(t *testing.T) {
 		if nw >= 2 && rnd.Intn(3) == 0 {
 			ids[1] = ids[0] // two callers may well use the same ID
 		}
+		// tag 0 = this caller leaves its message alone
+		tags := make([]byte, nw)
+		marks := make([]*dns.TXT, nw)
+		for i := range tags {
+			if rnd.Intn(4) != 0 {
+				tags[i] = byte(1 + i)
+				marks[i] = &dns.TXT{Hdr: dns.RR_Header{Name: "mark.", Rrtype: dns.TypeTXT, Class: dns.ClassINET}, Txt: []string{fmt.Sprint(tags[i])}}
+			}
+		}
+		oneP := rnd.Intn(2) == 0
+		prevP := 0
+		if oneP {
+			prevP = runtime.GOMAXPROCS(1)
+		}
 		resps := make([]*dns.Msg, nw)
 		errs := make([]error, nw)
 		start := make(chan struct{})
@@ -127,33 +152,75 @@ func TestVerifC10Share(t *testing.T) {
 				<-start
 				ctx, cancel := context.WithTimeout(context.Background(), 4*time.Second)
 				defer cancel()
-				resps[i], errs[i] = r.groupLookup(ctx, &resolveState{req: req, requestID: req.Id}, req, servers, false)
+				m, err := r.groupLookup(ctx, &resolveState{req: req, requestID: req.Id}, req, servers, false)
+				if m != nil && marks[i] != nil {
+					// the caller's own in-place edits, before anything else happens
+					m.Extra = append(m.Extra, marks[i])
+					if len(m.Answer) > 0 {
+						m.Answer[0].Header().Ttl = 1000 + uint32(tags[i])
+					}
+				}
+				resps[i], errs[i] = m, err
 			}(i)
 		}
 		close(start)
 		wg.Wait()
-		line := map[string]any{"k": fmt.Sprintf("share-%d-callers", nw)}
+		if oneP {
+			runtime.GOMAXPROCS(prevP)
+		}
+		kind := fmt.Sprintf("share-%d-callers", nw)
+		if oneP {
+			kind += "-1p"
+		}
+		line := map[string]any{"k": kind}
 		inconclusive := false
-		var got, idsCoq []string
+		var got, idsCoq, editsCoq []string
 		var bodies [][]byte
 		goFail := ""
 		for i := 0; i < nw; i++ {
 			idsCoq = append(idsCoq, fmt.Sprint(ids[i]))
+			var want []byte
+			if tags[i] != 0 {
+				want = []byte{tags[i], tags[i]}
+			}
+			editsCoq = append(editsCoq, vC10SRLE(want))
 			if errs[i] != nil || resps[i] == nil {
 				inconclusive = true
 				continue
 			}
 			m := resps[i]
 			id := m.Id
+			// the message = its content with every caller mark taken out, followed by the
+			// marks found in it (marker records in order, then the TTL mark)
 			cp := m.Copy()
 			cp.Id = 0
+			var found []byte
+			var extra []dns.RR
+			for _, rr := range cp.Extra {
+				if x, ok := rr.(*dns.TXT); ok && x.Hdr.Name == "mark." && len(x.Txt) == 1 {
+					v, _ := strconv.Atoi(x.Txt[0])
+					found = append(found, byte(v))
+					continue
+				}
+				extra = append(extra, rr)
+			}
+			cp.Extra = extra
+			if len(cp.Answer) > 0 {
+				if ttl := cp.Answer[0].Header().Ttl; ttl >= 1000 && ttl < 1256 {
+					found = append(found, byte(ttl-1000))
+				}
+				cp.Answer[0].Header().Ttl = 0
+			}
 			b, err := cp.Pack()
 			if err != nil {
 				inconclusive = true
 				continue
 			}
 			bodies = append(bodies, b)
-			got = append(got, fmt.Sprintf("(%d,%s)", id, vC10SRLE(b)))
+			got = append(got, fmt.Sprintf("(%d,%s)", id, vC10SRLE(append(append([]byte(nil), b...), found...))))
+			if string(found) != string(want) {
+				goFail = fmt.Sprintf("caller %d (tag %d) holds a message with the caller marks %v: it carries what another caller wrote into ITS message, or lost its own", i, tags[i], found)
+			}
 			if len(m.Question) != 1 || !strings.EqualFold(m.Question[0].Name, name) {
 				goFail = fmt.Sprintf("caller %d asked %q and got a message about %v", i, name, m.Question)
 			}
@@ -177,10 +244,10 @@ func TestVerifC10Share(t *testing.T) {
 		if len(bodies) > 0 {
 			body = vC10SRLE(bodies[0])
 		}
-		line["coq"] = fmt.Sprintf("CaseShare 0 %s [%s] %s [%s] %s", body, strings.Join(idsCoq, ";"), map[bool]string{true: "true", false: "false"}[nw >= 2],
-			strings.Join(got, ";"), map[bool]string{true: "true", false: "false"}[distinct])
+		line["coq"] = fmt.Sprintf("CaseShare 0 %s [%s] %s [%s] [%s] %s", body, strings.Join(idsCoq, ";"), map[bool]string{true: "true", false: "false"}[nw >= 2],
+			strings.Join(editsCoq, ";"), strings.Join(got, ";"), map[bool]string{true: "true", false: "false"}[distinct])
 		line["nontrivial"] = nw >= 2 && up < int64(nw)
-		line["desc"] = map[string]any{"callers": nw, "upstream_queries": up, "ids": ids, "distinct_objects": distinct}
+		line["desc"] = map[string]any{"callers": nw, "upstream_queries": up, "ids": ids, "tags": fmt.Sprint(tags), "gomaxprocs_1": oneP, "distinct_objects": distinct}
 		if goFail != "" {
 			line["go_fail"] = goFail
 		}
